@@ -10,6 +10,7 @@ mod props_hyrax;
 mod props_lincode;
 mod props_mlpc;
 mod props_default;
+mod props_attacks;
 mod props_kzg;
 mod props_c04;
 mod props_c06;
@@ -212,6 +213,7 @@ fn main() {
         props_lincode::run(&mut ctx, &prop);
         props_mlpc::run(&mut ctx, &prop);
         props_default::run(&mut ctx, &prop);
+        props_attacks::run(&mut ctx, &prop);
         props_c15::run_prop(&mut ctx, &prop);
     }
     }));
